@@ -45,6 +45,9 @@ def task_key(task):
     return parts[0], int(gid) + 1
 
 
+NONREP = -7
+
+
 class TracingEnvironment(simpy.Environment):
     """simpy.Environment that (a) keeps a registry of every process created,
     (b) records one trace entry after every processed event, (c) optionally
@@ -207,11 +210,15 @@ class TracingEnvironment(simpy.Environment):
         return out
 
     def ts(self, t):
-        """scaled integer time; raises if not integral in the chosen scale."""
+        """scaled integer time.  A time that is not a whole number of ticks at
+        the configuration's scale (impossible for times computed from this
+        configuration: the scale is the lcm of its bandwidths) is reported as the
+        value NONREP, which no clause or step of the specification accepts."""
         v = t * self.scale
         r = round(v)
         if abs(v - r) > 1e-9:
-            raise ValueError(f"harness: time {t} not integral at scale {self.scale}")
+            self.nonrep = getattr(self, "nonrep", 0) + 1
+            return NONREP
         return int(r)
 
 
